@@ -419,8 +419,12 @@ def run(ctx):
     rng.shuffle(lines)
     rng.shuffle(preds)
     reqs = [l for _, l in lines]
+    import time
+    t0 = time.time()
     answers = batch_parallel(drv, [model_line(l) for l in reqs], workers=ctx.workers)
-    impls = pmap(impl_line, reqs, workers=ctx.workers)
+    t1 = time.time()
+    impls = pmap(impl_line, reqs, workers=ctx.workers, chunksize=2)
+    t2 = time.time()
     for (kind, line), model, impl in zip(lines, answers, impls):
         if rec.compare(kind, {"line": line}, impl, model, determined=True, key=line[:300],
                        nontrivial=not line.endswith(" s")):
@@ -428,6 +432,7 @@ def run(ctx):
         if impl == REJECT:
             rec.count(kind + ":reject")
     results = pmap(eval_pred, preds, workers=ctx.workers, chunksize=1)
+    rec.note(f"timing: model {t1 - t0:.1f}s, implementation {t2 - t1:.1f}s, predicates {time.time() - t2:.1f}s")
     nsub = 0
     for (kind, case), (ok, got, want) in zip(preds, results):
         if kind == "substitution":
